@@ -496,6 +496,19 @@ def s2b(ctx, rep):
                 why = f"`{v}` is put on the order list but stays in the work set: it is chosen again, the order holds it twice"
     loops = [x for x in whiles if any(a[0] == "truth" and a[1] == w and a[2] is True for a in atoms_of(x.test, True))
              or any(a[0] in ("lt", "le") and f"len({w})" in a[1:3] for a in atoms_of(x.test, True))]
+    # ... or a counted loop with one round per position that is left: the work set is set(range(n)), one position is taken out before
+    # the loop, and the loop runs range(n - 1) rounds each of which takes one out (checked above)
+    if not loops:
+        wdef = [d for d in local_defs(f, w) if not isinstance(d, tuple)]
+        n_txt = U(deref(f, argn(deref(f, argn(wdef[0], 0)), 0))).replace(" ", "") if len(wdef) == 1 else None
+        before = [nid for nid, x in rem if not any(l.kind == "for" and cfg.nodes[nid].stmt in list(stmts_in(l.ast.body)) for l in cfg.nodes)]
+        for lp in [x for x in walk_shallow(f.node) if isinstance(x, ast.For)]:
+            it = lp.iter
+            inside_rem = [nid for nid, x in rem if cfg.nodes[nid].stmt in list(stmts_in(lp.body))]
+            if isinstance(it, ast.Call) and fn_name(it) == "range" and len(it.args) == 1 and n_txt is not None \
+                    and U(deref(f, it.args[0])).replace(" ", "") == f"{n_txt}-1" and len(before) == 1 and len(inside_rem) == 1 \
+                    and not any(isinstance(y, (ast.Break, ast.Continue)) for s_ in lp.body for y in ast.walk(s_)):
+                loops = [lp]
     ok = ok and len(loops) == 1
     rep.put(ok, "S2", "paired", "compute_epsilon_net: every position leaves the work set onto the order list, until the work set is empty", f,
             None, f"{len(rem)} removal(s)", why or "the loop does not run until the work set is empty: positions are missing from the order "
